@@ -1,9 +1,19 @@
 #!/bin/bash
-# Offline setup after a fresh restore: make sure hypothesis is importable by /venv/bin/python.
-# Nothing is built: the checks import magpylib from /repo's working tree directly.
+# Offline setup after a fresh restore: make sure hypothesis (required) and atheris (optional second
+# driver of the thorough tiers) are importable by /venv/bin/python.  Third-party packages go to
+# /verif/.deps (git-ignored), never into /venv.  Nothing is built: the checks import magpylib from
+# /repo's working tree directly.
 cd "$(dirname "$0")" || exit 1
 PY=${VERIF_PYTHON:-/venv/bin/python}
-if ! "$PY" -c "import hypothesis" 2>/dev/null; then
-  "$PY" -m pip install --quiet --no-index --find-links /opt/veriftools/wheels --target .deps hypothesis || exit 1
+WH=/opt/veriftools/wheels
+export PIP_NO_INDEX=1 PIP_DISABLE_PIP_VERSION_CHECK=1
+if ! PYTHONPATH="$PWD/.deps" "$PY" -c "import hypothesis" 2>/dev/null; then
+  "$PY" -m pip install --quiet --no-index --find-links $WH --target .deps hypothesis || exit 1
 fi
+if ! PYTHONPATH="$PWD/.deps" "$PY" -c "import atheris" 2>/dev/null; then
+  "$PY" -m pip install --quiet --no-index --no-deps --find-links $WH --target .deps atheris \
+    || echo "setup: atheris not installable here; thorough tiers run with Hypothesis alone"
+fi
+[ "$1" = "-q" ] && exit 0
 PYTHONPATH="$PWD/.deps" "$PY" -c "import hypothesis, numpy, scipy; print('setup ok: hypothesis', hypothesis.__version__)"
+PYTHONPATH="$PWD/.deps" "$PY" -c "import atheris; print('setup ok: atheris available')" 2>/dev/null || true
